@@ -150,6 +150,8 @@ class Summaries:
         first = True
         try:
             for (fn, bb, op) in self._stores.get(key, []):
+                if fn.impl_trait == 'core::clone::Clone' and fn.impl_self_adt == adt:
+                    continue    # a clone copies the field unchanged
                 if op is None:
                     r = tr
                     break
@@ -157,7 +159,7 @@ class Summaries:
                 if isinstance(op, tuple) and op[0] == 'rv':
                     v = e.rv(op[1], 10, bb)
                 elif isinstance(op, tuple) and op[0] == 'call':
-                    v = e._call(op[1], 10)
+                    v = e._call(op[1], 10, bb)
                 else:
                     v = e.val(op, bb)
                 if v is None:
